@@ -47,7 +47,8 @@ CHECK = {
             "final full exchange; thorough: every third case delivers a <=5-delta history to a third replica in the k-th of all permutations. "
             "batch: one real crdt.Consensus, batching off / size 1,2,3,5 / age 60ms, queue 50 or size..size+2, bursts against a worker held inside "
             "Commit, one injected datastore write failure (DAG node / tombstone batch / element batch / head) per case. net: 2-3 real peers over "
-            "loopback pubsub, trust all / trust_all / one peer trusted by nobody, phases with one writer per CID. non-trivial = at least one delta "
+            "loopback pubsub, trust all / trust_all / one peer trusted by nobody / relay chain 0-1-2 with a connection gater (peer 2 trusts the signer only, the "
+            "forwarder only, everybody), phases with one writer per CID. non-trivial = at least one delta "
             "(set) or one operation and one observation (batch, net); distinct by case line",
     "trusted_base": ["in-memory DAG service shared by the replicas and harness-controlled broadcaster (set suite)",
                      "datastore wrapper classifying the writes of a publish by key prefix, gate and one-shot failure; recording PinTracker RPC service",
